@@ -7,7 +7,8 @@ CHECK = {'level': 'exploration',
            {'name': 'alloc-random', 'pkg': 'db', 'run': '^TestVerif_C07_AllocRandom$', 'timeout_q': 400, 'timeout_t': 2400},
            {'name': 'alloc-race', 'pkg': 'db', 'race': True, 'run': '^TestVerif_C07_AllocRace$', 'timeout_q': 400, 'timeout_t': 2400},
            {'name': 'db', 'pkg': 'db', 'race': True, 'run': '^TestVerif_C07_DB$', 'timeout_q': 500, 'timeout_t': 3000},
-           {'name': 'retry-chain', 'pkg': 'db', 'run': '^TestVerif_C07_RetryChain$', 'timeout_q': 400, 'timeout_t': 1200}],
+           {'name': 'retry-chain', 'pkg': 'db', 'run': '^TestVerif_C07_RetryChain$', 'timeout_q': 400, 'timeout_t': 1200},
+           {'name': 'two-nodes', 'pkg': 'db', 'run': '^TestVerif_C07_TwoNodes$', 'timeout_q': 400, 'timeout_t': 1200}],
  'min_evals': 50,
  'race_files': ['db/sequence_allocator.go'],
  'race_state': ['s.last', 's.max', 's.sequenceBatchSize', 'sequence =', 's.terminator'],
